@@ -84,12 +84,20 @@ func (r *zzRig) others() []spectypes.OperatorID {
 // zzPrefix drives the instance into one of several reachable states using honest messages.
 //  0 fresh | 1 round-1 proposal accepted | 2 + quorum-1 prepares | 3 + quorum prepares (prepared, commit sent)
 //  4 + quorum-1 commits | 5 timed out once from state 3 (round 2, locked) | 6 timed out once from state 0
+//  7 fresh + one honest round-change for round 2 received
 func (r *zzRig) prefix(kind int, value []byte) {
 	if kind == 0 {
 		return
 	}
 	if kind == 6 {
 		_ = r.inst.UponRoundTimeout(r.lg)
+		return
+	}
+	if kind == 7 {
+		// one correct peer already announced round 2 (f more such messages pull us forward)
+		rc := zzHonest(r.others()[0], r.msg(specqbft.RoundChangeMsgType, 2, [32]byte{}), nil)
+		_, _, _, err := r.inst.ProcessMsg(r.lg, rc)
+		zzAssume(err == nil)
 		return
 	}
 	root, _ := zzHashDataRoot(value)
@@ -211,7 +219,7 @@ func ZZHarnessStep() {
 	if p := int(zzParam("PREFIX")); p > 0 {
 		kind = p - 1
 	} else {
-		kind = zzChoose("prefix", 7)
+		kind = zzChoose("prefix", 8)
 	}
 	r.prefix(kind, value)
 	pre := r.snap()
@@ -228,6 +236,14 @@ func ZZHarnessStep() {
 
 	// L4 monotonicity
 	zzAssert(post.round >= pre.round, "L4-round-monotone")
+	if post.round != pre.round {
+		zzReach("round-bumped")
+		// whoever moves to a new round arms its timer for that round (else its next timeout is dropped as stale)
+		zzAssert(post.nArmed == pre.nArmed+1 && r.tm.armed[post.nArmed-1] == post.round, "round-bump-arms-timer-for-the-new-round")
+		zzAssert(post.accepted == nil || post.accepted == m, "round-bump-clears-old-accepted-proposal")
+	} else {
+		zzAssert(post.nArmed == pre.nArmed, "no-timer-arming-without-round-change")
+	}
 	zzAssert(post.lpr >= pre.lpr && post.lpr <= post.round, "L4-prepared-round-monotone-and-bounded")
 	if err != nil {
 		zzAssert(len(newMsgs) == 0, "rejected-message-causes-no-broadcast")
@@ -434,8 +450,16 @@ func zzSameMsg(a, b *specqbft.SignedMessage) bool {
 		len(a.Signers) != len(b.Signers) || len(a.FullData) != len(b.FullData) || len(a.Signature) != len(b.Signature) {
 		return false
 	}
-	for i := range a.Signers {
-		if a.Signers[i] != b.Signers[i] {
+	// signers are compared as sets: the node sorts the signer list of the commit aggregate (its message
+	// validation demands sorted signers), the spec keeps arrival order - a deliberate node-side difference
+	for _, x := range a.Signers {
+		found := false
+		for _, y := range b.Signers {
+			if x == y {
+				found = true
+			}
+		}
+		if !found {
 			return false
 		}
 	}
@@ -444,9 +468,11 @@ func zzSameMsg(a, b *specqbft.SignedMessage) bool {
 			return false
 		}
 	}
-	for i := range a.Signature {
-		if a.Signature[i] != b.Signature[i] {
-			return false
+	if len(a.Signers) == 1 {
+		for i := range a.Signature {
+			if a.Signature[i] != b.Signature[i] {
+				return false
+			}
 		}
 	}
 	return true
@@ -494,7 +520,12 @@ func ZZHarnessDiff() {
 	a := zzNewRig(n, own, height, value)
 	b := zzNewSpecRig(a, value)
 	zzSameBroadcasts(a.net.msgs, b.net.msgs, "start")
-	kind := zzChoose("prefix", 8)
+	kind := 0
+	if p := int(zzParam("PREFIX")); p > 0 {
+		kind = p - 1
+	} else {
+		kind = zzChoose("prefix", 8)
+	}
 	var first *specqbft.SignedMessage
 	if len(a.net.msgs) > 0 {
 		first = a.net.msgs[0]
@@ -603,3 +634,247 @@ func ZZHarnessCompact() {
 			a.inst.State.LastPreparedRound == b.inst.State.LastPreparedRound, "compact-same-protocol-state")
 	}
 }
+
+// ---------------------------------------------------------------------------------------------
+// C07(b): fault-free synchronous run: n real instances, all-to-all in-order delivery.
+
+func ZZHarnessSyncRound1() {
+	n := int(zzParam("N"))
+	height := specqbft.Height(zzNondetRange("iheight", 0, uint64(n)))
+	rigs := make([]*zzRig, n)
+	vals := make([][]byte, n)
+	for i := 0; i < n; i++ {
+		vals[i] = []byte{zzNondetByte("startvalue")}
+		rigs[i] = zzNewRig(n, zzCommitteeIDs[n][i], height, vals[i])
+		zzAssume(rigs[i].valOK) // fault-free case: every proposed value is valid
+	}
+	leaderIdx := 0
+	for i := range rigs {
+		if rigs[i].share.OperatorID == zzLeader(rigs[0].share, height, 1) {
+			leaderIdx = i
+		}
+	}
+	delivered := make([]int, n) // per sender: how many of its broadcasts were delivered
+	for sweep := 0; sweep < 6; sweep++ {
+		progress := false
+		for s := 0; s < n; s++ {
+			for delivered[s] < len(rigs[s].net.msgs) {
+				m := rigs[s].net.msgs[delivered[s]]
+				delivered[s]++
+				progress = true
+				if m == nil {
+					continue
+				}
+				for d := 0; d < n; d++ {
+					_, _, _, err := rigs[d].inst.ProcessMsg(rigs[d].lg, zzCopyMsg(m))
+					// in a fault-free in-order run no honest message is refused, except commits that arrive after
+					// the decision was already aggregated and re-broadcast
+					_ = err
+				}
+			}
+		}
+		if !progress {
+			break
+		}
+	}
+	for i := 0; i < n; i++ {
+		st := rigs[i].inst.State
+		zzAssert(st.Decided, "sync-everyone-decides")
+		zzAssert(st.Round == 1, "sync-decides-in-round-1")
+		zzAssert(len(st.DecidedValue) == 1 && st.DecidedValue[0] == vals[leaderIdx][0], "sync-decides-leaders-value")
+		zzAssert(len(rigs[i].tm.armed) == 1, "sync-no-extra-timer-armings")
+	}
+	zzReach("end")
+}
+
+// ---------------------------------------------------------------------------------------------
+// Justified proposals (rounds > 1): honest template + one symbolic mutation ("every honest message with
+// every single rule-breaking mutation"), complementing the fully symbolic justification sets of the
+// thorough tier.
+
+// zzMutate replaces one field of sm by a fresh symbolic value.
+func zzMutate(sm *specqbft.SignedMessage, field int) {
+	switch field {
+	case 0:
+		sm.Message.MsgType = specqbft.MessageType(zzNondetRange("mut-type", 0, 5))
+	case 1:
+		sm.Message.Height = specqbft.Height(zzNondetU64("mut-height"))
+	case 2:
+		sm.Message.Round = specqbft.Round(zzNondetRange("mut-round", 0, 6))
+	case 3:
+		sm.Signers = []spectypes.OperatorID{spectypes.OperatorID(zzNondetRange("mut-signer", 0, 12))}
+	case 4:
+		sm.Signature = append([]byte{}, sm.Signature...)
+		sm.Signature[0] = zzNondetByte("mut-sigflag")
+	case 5:
+		sm.Signature = append([]byte{}, sm.Signature...)
+		sm.Signature[1] = zzNondetByte("mut-sigkey")
+	case 6:
+		sm.Signature = append([]byte{}, sm.Signature...)
+		sm.Signature[16] ^= 0x80 // signature over another message
+	case 7:
+		sm.Message.Root[1] = zzNondetByte("mut-root1")
+	case 8:
+		sm.Message.DataRound = specqbft.Round(zzNondetRange("mut-dataround", 0, 4))
+	case 9:
+		sm.Signers = append(sm.Signers, spectypes.OperatorID(zzNondetRange("mut-extrasigner", 0, 12)))
+	}
+}
+
+const zzNumMutations = 10
+
+// resign re-signs sm honestly (used for inner messages whose content was built by the harness).
+func zzResign(sm *specqbft.SignedMessage) {
+	mr, _ := zzMessageRoot(&sm.Message)
+	sm.Signature = zzSigBy(byte(sm.Signers[0]), mr)
+}
+
+// ZZHarnessJustifiedProposal: own operator sits in round ROUND-1 or ROUND (after timeouts); the leader of
+// ROUND sends a proposal justified by a round-change quorum in one of three shapes (all unprepared / one
+// sender prepared on value v at round 1 with a prepare quorum / two senders prepared on the same value at
+// rounds 1 and 2); one field of one component is replaced by a symbolic value. Acceptance => P-valid.
+func ZZHarnessJustifiedProposal() {
+	n := int(zzParam("N"))
+	own := zzCommitteeIDs[n][int(zzParam("OWN"))]
+	round := specqbft.Round(zzParam("ROUND"))
+	height := specqbft.Height(zzNondetRange("iheight", 0, uint64(n)))
+	value := []byte{9}
+	r := zzNewRig(n, own, height, value)
+	// own operator times out until it is in round-1 or round (Choose)
+	target := round - specqbft.Round(zzChoose("lag", 2))
+	for r.inst.State.Round < target {
+		zzAssume(r.inst.UponRoundTimeout(r.lg) == nil)
+	}
+	q := int(r.share.Quorum)
+	leader := zzLeader(r.share, height, round)
+	shape := zzChoose("shape", 3)
+	if shape == 2 && round < 3 {
+		shape = 1
+	}
+	pv := []byte{5} // the prepared value
+	proot, _ := zzHashDataRoot(pv)
+	// senders of the round changes: the leader itself first, then other members
+	var senders []spectypes.OperatorID
+	senders = append(senders, leader)
+	for _, c := range r.share.Committee {
+		if c.OperatorID != leader && len(senders) < q {
+			senders = append(senders, c.OperatorID)
+		}
+	}
+	mkPrepares := func(rd specqbft.Round) []*specqbft.SignedMessage {
+		var ps []*specqbft.SignedMessage
+		for k := 0; k < q; k++ {
+			ps = append(ps, zzHonest(r.share.Committee[k].OperatorID, specqbft.Message{MsgType: specqbft.PrepareMsgType, Height: height, Round: rd, Identifier: r.id, Root: proot}, nil))
+		}
+		return ps
+	}
+	var rcs []*specqbft.SignedMessage
+	var highestPrepares []*specqbft.SignedMessage
+	for k, s := range senders {
+		m := specqbft.Message{MsgType: specqbft.RoundChangeMsgType, Height: height, Round: round, Identifier: r.id}
+		var fd []byte
+		preparedAt := specqbft.Round(0)
+		if shape == 1 && k == 1 {
+			preparedAt = 1
+		}
+		if shape == 2 && k == 1 {
+			preparedAt = 1
+		}
+		if shape == 2 && k == 2 {
+			preparedAt = 2
+		}
+		if preparedAt != 0 {
+			m.Root, m.DataRound, fd = proot, preparedAt, pv
+			ps := mkPrepares(preparedAt)
+			j, _ := specqbft.MarshalJustifications(ps)
+			m.RoundChangeJustification = j
+			highestPrepares = ps
+		}
+		rcs = append(rcs, zzHonest(s, m, fd))
+	}
+	propValue := value
+	if shape != 0 {
+		propValue = pv
+	}
+	// exactly one deviation from the honest template:
+	//  0 none | 1 a field of one round change | 2 a field of one prepare | 3 a field of the proposal |
+	//  4 another value proposed | 5 one round change missing | 6 one prepare missing
+	// content fields (type, height, round, signer, root, data round, extra signer) are re-signed by the claimed
+	// signer (a member can sign anything with its own key); signature fields (flag, key, binding) keep the content.
+	where := zzChoose("mutate-where", 7)
+	field := 0
+	if where >= 1 && where <= 3 {
+		field = zzChoose("mutate-field", zzNumMutations)
+	}
+	mutate := func(sm *specqbft.SignedMessage) {
+		zzMutate(sm, field)
+		contentField := field <= 3 || field >= 7
+		if contentField && len(sm.Signers) >= 1 && sm.Signers[0] < 256 {
+			mr, _ := zzMessageRoot(&sm.Message)
+			sig := zzSigBy(byte(sm.Signers[0]), mr)
+			if len(sm.Signers) == 2 && sm.Signers[1] < 256 {
+				sig[2] = byte(sm.Signers[1])
+			}
+			sm.Signature = sig
+		}
+	}
+	switch where {
+	case 1:
+		mutate(rcs[zzChoose("mutate-which-rc", len(rcs))])
+	case 2:
+		if len(highestPrepares) > 0 {
+			mutate(highestPrepares[zzChoose("mutate-which-prepare", len(highestPrepares))])
+			// the prepares travel inside the prepared round change too
+			for _, rc := range rcs {
+				if rc.Message.DataRound != 0 {
+					j, _ := specqbft.MarshalJustifications(highestPrepares)
+					rc.Message.RoundChangeJustification = j
+					zzResign(rc)
+				}
+			}
+		}
+	case 4:
+		propValue = []byte{zzNondetByte("otherValue")}
+	}
+	proposalRoot, _ := zzHashDataRoot(propValue)
+	pm := specqbft.Message{MsgType: specqbft.ProposalMsgType, Height: height, Round: round, Identifier: r.id, Root: proposalRoot}
+	pm.RoundChangeJustification, _ = specqbft.MarshalJustifications(rcs)
+	if where == 5 {
+		pm.RoundChangeJustification = pm.RoundChangeJustification[:len(rcs)-1]
+	}
+	pm.PrepareJustification, _ = specqbft.MarshalJustifications(highestPrepares)
+	if len(highestPrepares) > 0 && where == 6 {
+		pm.PrepareJustification = pm.PrepareJustification[:len(highestPrepares)-1]
+	}
+	prop := zzHonest(leader, pm, propValue)
+	if where == 3 {
+		mutate(prop)
+	}
+	pre := r.snap()
+	_, _, _, err := r.inst.ProcessMsg(r.lg, prop)
+	post := r.snap()
+	if err == nil {
+		zzReach("accepted")
+		if where == 0 {
+			zzReach("accepted-unmutated")
+		}
+	} else {
+		zzReach("rejected")
+	}
+	if where == 0 && !zzSymbolicFalse() {
+		// (no assertion that the honest template is accepted here: that is C07/C10's claim)
+	}
+	if post.accepted != pre.accepted && post.accepted != nil {
+		zzAssert(post.accepted == prop, "accepted-proposal-is-this-message")
+		r.checkPValid(pre, prop)
+		zzAssert(post.round == prop.Message.Round, "accepting-a-proposal-moves-to-its-round")
+		if post.round != pre.round {
+			zzAssert(post.nArmed == pre.nArmed+1 && r.tm.armed[post.nArmed-1] == post.round, "round-bump-arms-timer-for-the-new-round")
+		}
+	}
+	if err != nil {
+		zzAssert(post.accepted == pre.accepted && post.round == pre.round && len(r.net.msgs) == pre.nBroadcast, "rejected-proposal-changes-nothing")
+	}
+}
+
+func zzSymbolicFalse() bool { return false }
